@@ -718,7 +718,12 @@ func (s *storage) Shrink(stopAfter time.Duration) bool {
 				anyFound = true
 			}
 			if !table.isFree && table.Len() == 0 {
-				s.archetypes[table.archetype].FreeTable(table)
+				archetype := &s.archetypes[table.archetype]
+				archetype.FreeTable(table)
+				// The targets are still alive, so the table must also be removed
+				// from the relation target lookups and from the filter cache.
+				archetype.removeFromTargets(table)
+				s.cache.removeTable(table)
 				anyFound = true
 			}
 		}
